@@ -20,6 +20,7 @@ import (
 	"context"
 	"errors"
 	"fmt"
+	"reflect"
 
 	"github.com/cloudwego/eino/internal/serialization"
 )
@@ -246,6 +247,11 @@ func (s *streamConverter) restoreOutputs(isStream bool, values map[string]any) e
 	return restore(values, s.outputPairs, isStream)
 }
 
+var (
+	fieldMappedValueType = reflect.TypeOf(map[string]any{})
+	fieldMappedValuePair = defaultStreamConvertPair[map[string]any]()
+)
+
 func convert(values map[string]any, convPairs map[string]streamConvertPair, isStream bool) error {
 	if !isStream {
 		return nil
@@ -261,7 +267,15 @@ func convert(values map[string]any, convPairs map[string]streamConvertPair, isSt
 		}
 		nValue, err := convPair.concatStream(sr)
 		if err != nil {
-			return err
+			// a value that crossed a field-mapped edge waits in the channel as map[string]any, whatever the
+			// output type of the node it came from
+			if sr.getChunkType() != fieldMappedValueType {
+				return err
+			}
+			nValue, err = fieldMappedValuePair.concatStream(sr)
+			if err != nil {
+				return err
+			}
 		}
 		values[key] = nValue
 	}
@@ -279,7 +293,14 @@ func restore(values map[string]any, convPairs map[string]streamConvertPair, isSt
 		}
 		sr, err := convPair.restoreStream(v)
 		if err != nil {
-			return err
+			if _, ok := v.(map[string]any); !ok {
+				return err
+			}
+			// see convert: a field-mapped value
+			sr, err = fieldMappedValuePair.restoreStream(v)
+			if err != nil {
+				return err
+			}
 		}
 		values[key] = sr
 	}
